@@ -14,7 +14,7 @@ class C15(C06):
     RULE = ("N in {2,4,8} real threads share ONE bundle created with new_concurrent by reference; released together by a "
             "barrier onto a cold formatter cache, each thread issues every request of the program (rotated order) — programs "
             "are GR bundles biased to plural selects (cardinal and ordinal, so the first lazily constructed PluralRules of both "
-            "kinds race), custom values (as_string_threadsafe) and functions; on the same line the same program runs "
+            "kinds race; bundles with a locale CHAIN whose head has no plural rules of its own), custom values (as_string_threadsafe) and functions; on the same line the same program runs "
             "sequentially (th=1). Half of the lines use a POOL of long-lived worker threads and one process-wide bundle slot: a "
             "second bundle of another locale replaces the first in place (same address) and is used by the same threads. "
             "Schedule SAMPLING: real interleavings are not enumerated. Non-trivial = the program "
@@ -40,7 +40,12 @@ class C15(C06):
         # pool=1: long-lived worker threads and ONE bundle slot for the whole process - the second bundle of the
         # line (another locale) replaces the first one in place, at the same address
         pooled = rng.random() < 0.5
-        locs = rng.sample(["en", "pl", "ru", "ar", "cs", "fr", "lt"], 2) if pooled else [rng.choice(["en", "en-US"])]
+        # locale CHAINS: the formatter cache is bound to the first locale only ("xx" has no plural rules of its own: en);
+        # a request that consulted the rest of the chain - on any path, e.g. only while the cache is busy - shows as
+        # a result that depends on the interleaving
+        chains = ["xx+pl", "xx+ar", "xx+ru+lt", "en+pl", "ja+ar"]
+        locs = (rng.sample(["en", "pl", "ru", "ar", "cs", "fr", "lt"] + chains, 2) if pooled
+                else [rng.choice(["en", "en-US"] + chains)])
         opts = "iso=%d;tr=%s;fm=%s;fl=conc" % (rng.randrange(2), rng.choice(["none", "upper", "pseudo", "pseudo", "bracket"]),
                                                rng.choice(["none", "numbr"]))
         reqs = []
